@@ -52,6 +52,7 @@ def make_case(rng, ndim, ki, ko, nr, steady, r=None, t=None):
     c = tc.gen_case(rng, ndim=ndim, inner=ki, outer=ko, steady=steady, const_mat=True, nsteps=1)
     c.nr = nr
     c.nt, c.nz = 4, 3
+    c.bc_nt = c.nt
     c.r = r or rng.choice([5.0, 10.0, 20.0])
     c.t = t or c.r * rng.choice([0.1, 0.2, 0.4])
     c.T0field = None
@@ -95,6 +96,49 @@ def steady_error(case):
     err = float(np.max(np.abs(Tm - ex[:, None])))
     spread = float(np.max(np.abs(Tm - Tm[:, :1])))
     return err, spread, float(np.max(np.abs(ex)))
+
+
+def default_solver_small_signal(rng, ndim, ki, ko):
+    """the documented default solver parameters (atol 1e-2, rtol 1e-6) on a fine grid with small data
+    values and T0 = 0: the step is linear, so the answer must still follow the exact profile in the
+    relative sense (a solver that stops on `initial residual < atol` would return T0)."""
+    receiver, thermal, materials = tc.mods()
+    c = make_case(rng, ndim, ki, ko, 33, True)
+    eps = 2.0 ** -12
+    c.T0 = 0.0
+    for name in ("inner_data", "outer_data"):
+        d = getattr(c, name)
+        if d is not None:
+            setattr(c, name, d * eps)
+    for k in ("Ti", "To", "qi", "qo"):
+        c.params[k] *= eps
+    out = []
+    for steady in (True, False):
+        import copy
+        cc = copy.deepcopy(c)
+        cc.steady = steady
+        if not steady:
+            tau = cc.t ** 2 / float(cc.mat_a[0])
+            cc.times = np.array([0.0, 1e7 * tau, 1e11 * tau])
+            for name in ("inner_data", "outer_data"):
+                d = getattr(cc, name)
+                kind = cc.inner if name.startswith("inner") else cc.outer
+                if d is not None and kind in ("fix", "flux", "conv"):
+                    setattr(cc, name, np.repeat(d[:1], len(cc.times), axis=0))
+        tube, mat, fluid = tc.build(cc)
+        solver = thermal.FiniteDifferenceImplicitThermalSolver(steady=steady)   # all defaults
+        T = np.array(solver.solve(tube, mat, fluid))[-1]
+        p = cc.params
+        f = exact_profile(cc.inner, cc.outer, cc.r - cc.t, cc.r, float(cc.mat_k[0]),
+                          p["Ti"], p["To"], p["qi"], p["qo"], p["hi"], p["ho"])
+        ex = f(np.linspace(cc.r - cc.t, cc.r, cc.nr))
+        err = float(np.max(np.abs(T.reshape((cc.nr, -1)) - ex[:, None])))
+        scale = float(np.max(np.abs(ex)))
+        dr = cc.t / (cc.nr - 1)
+        if err > (2.0 * dr / (cc.r - cc.t)) * scale + 1e-12:
+            out.append("%s %s/%s %dD, default solver parameters, data of size %.1e on nr=33: error %.3e relative to %.3e"
+                       % ("steady" if steady else "transient", ki, ko, ndim, scale, err, scale))
+    return out, c
 
 
 def transient_limit(case, substep):
@@ -148,6 +192,8 @@ def check_pairing(rng, ndim, ki, ko):
     dl, dp, sc = transient_limit(c1, sub)
     if dl > 1e-5 * sc or dl > dp + 1e-7 * sc:
         bad.append("transient %s/%s %dD (substep %d): distance to steady solution %.3e (previous %.3e)" % (ki, ko, ndim, sub, dl, dp))
+    small, _ = default_solver_small_signal(rng, ndim, ki, ko)
+    bad += small
     return bad, c1, dict(e9=e1, e17=e2, ratio=ratio)
 
 
